@@ -263,6 +263,269 @@ func triRegionSites(id *int, out *ndWriter, stats map[string]int, rings [][][]in
 	}
 }
 
+// ---- regions placed in the frame in which TriangulateMesh sweeps ----
+
+// sweepAngle is the fixed rotation of model2d's misalignMesh: the sweep runs along the x axis of
+// the input rotated by -sweepAngle.
+const sweepAngle = 0.5037616150469717
+
+// triPlacedCase is a region whose integer rings are coordinates in the sweep frame; dx nudges the
+// sweep-frame x coordinate of single vertices by 1e-12 .. 1e-9, so that distinct vertices whose
+// edges are in the sweep status together are nearly (never exactly) aligned along the sweep line.
+// The nudges are far below the resolution of the integer skeleton (every strict predicate of the
+// definition has a margin of at least 1/2 there), so the triangulation is judged on the skeleton.
+type triPlacedCase struct {
+	Name  string      `json:"name"`
+	Rings [][][]int   `json:"rings"`
+	DX    [][]float64 `json:"dx"`
+	Exp   int         `json:"exp"` // coordinates are multiplied by 2^exp (exact)
+}
+
+func triPlacedSites(id *int, out *ndWriter, stats map[string]int, c triPlacedCase, rot int) {
+	xAxis := model2d.NewCoordPolar(sweepAngle, 1.0)
+	yAxis := model2d.XY(-xAxis.Y, xAxis.X)
+	scale := math.Ldexp(1, c.Exp)
+	oriented := make([][][]int, len(c.Rings))
+	coords := make([][]model2d.Coord, len(c.Rings))
+	index := map[model2d.Coord]int{}
+	var sweepX []float64
+	var tied []bool
+	n := 0
+	for k, r := range c.Rings {
+		depthEven := k == 0 || k == 2 && len(c.Rings) == 3 && ringInside(c.Rings[2], c.Rings[1])
+		ccw := ringArea2(r) > 0
+		order := make([]int, len(r))
+		for i := range r {
+			order[i] = i
+		}
+		ord2 := rotateRing(intsAsRing(order), rot%len(r), ccw == depthEven)
+		for _, o := range ord2 {
+			i := o[0]
+			d := 0.0
+			if k < len(c.DX) && i < len(c.DX[k]) {
+				d = c.DX[k][i]
+			}
+			p := xAxis.Scale((float64(r[i][0]) + d) * scale).Add(yAxis.Scale(float64(r[i][1]) * scale))
+			oriented[k] = append(oriented[k], r[i])
+			coords[k] = append(coords[k], p)
+			n++
+			if _, dup := index[p]; dup {
+				fatal("placed region %s: two vertices share a coordinate", c.Name)
+			}
+			index[p] = n
+			// exactly the expression of misalignMesh
+			sweepX = append(sweepX, xAxis.Dot(p)/scale)
+			tied = append(tied, d != 0)
+		}
+	}
+	// the generator's contract: no two vertices share a sweep-frame x; vertices are either far
+	// apart (>= 1e-3) or nearly aligned (5e-13 .. 1e-8)
+	ties := 0
+	for i := range sweepX {
+		for j := 0; j < i; j++ {
+			d := math.Abs(sweepX[i] - sweepX[j])
+			if d < 1e-3 {
+				if d < 5e-13 || d >= 1e-8 {
+					fatal("placed region %s: sweep-frame x of two vertices differ by %g", c.Name, d)
+				}
+				ties++
+			}
+		}
+	}
+	stats["near-ties"] += ties
+	mesh := model2d.NewMesh()
+	for _, r := range coords {
+		for i := range r {
+			mesh.Add(&model2d.Segment{r[i], r[(i+1)%len(r)]})
+		}
+	}
+	emit := func(rec triRec) {
+		*id++
+		rec.ID = *id
+		rec.Variant = c.Name
+		rec.Rings = oriented
+		if rec.Tris == nil {
+			rec.Tris = [][]int{}
+		}
+		if rec.Extrude.Faces == nil {
+			rec.Extrude.Faces = [][]int{}
+		}
+		out.write(rec)
+		stats["records"]++
+		stats["site:"+rec.Site]++
+		stats["outcome:"+rec.Outcome]++
+	}
+	{
+		var res [][3]model2d.Coord
+		rec := triRec{Site: "model2d.TriangulateMesh@sweep-frame", Clockwise: true}
+		rec.Outcome, rec.Panic = withDeadline(10*time.Second, func() { res = model2d.TriangulateMesh(mesh) })
+		for _, t := range res {
+			rec.Tris = append(rec.Tris, []int{index[t[0]], index[t[1]], index[t[2]]})
+		}
+		emit(rec)
+	}
+	if c.Exp == 0 {
+		h := 1 + rot%3
+		var m *model3d.Mesh
+		rec := triRec{Site: "model3d.ProfileMesh@sweep-frame"}
+		rec.Outcome, rec.Panic = withDeadline(10*time.Second, func() { m = model3d.ProfileMesh(mesh, -1, float64(h-1)) })
+		if rec.Outcome == "ok" {
+			rec.Extrude.H = h
+			ids := map[model3d.Coord3D]int{}
+			vol6 := 0.0
+			m.Iterate(func(t *model3d.Triangle) {
+				f := []int{0, 0, 0}
+				for k, c := range t {
+					if _, ok := ids[c]; !ok {
+						ids[c] = len(ids) + 1
+					}
+					f[k] = ids[c]
+				}
+				rec.Extrude.Faces = append(rec.Extrude.Faces, f)
+				vol6 += t[0].Dot(t[1].Cross(t[2]))
+			})
+			rec.Extrude.NV = len(ids)
+			rec.Extrude.Vol6 = int(math.Round(vol6))
+			// the nudges change the doubled area by at most 1e-9 * the height of the region
+			rec.Extrude.VolX = math.Abs(vol6-math.Round(vol6)) < 1e-5
+		}
+		emit(rec)
+	}
+}
+
+func intsAsRing(xs []int) [][]int {
+	out := make([][]int, len(xs))
+	for i, x := range xs {
+		out[i] = []int{x}
+	}
+	return out
+}
+
+// ---- polygons with many vertices: both vertex orders, several starting vertices ----
+
+func triBigPolygonSites(id *int, out *ndWriter, stats map[string]int, ring [][]int, caseNo, seed int) {
+	n := len(ring)
+	emit := func(rec triRec, r [][]int, variant string) {
+		*id++
+		rec.ID = *id
+		rec.Variant = variant
+		rec.Rings = [][][]int{r}
+		if rec.Tris == nil {
+			rec.Tris = [][]int{}
+		}
+		rec.Extrude.Faces = [][]int{}
+		out.write(rec)
+		stats["records"]++
+		stats["site:"+rec.Site]++
+		stats["outcome:"+rec.Outcome]++
+	}
+	starts := []int{0, (7*caseNo + 13*seed + n/3) % n}
+	for rev := 0; rev < 2; rev++ {
+		for si, st := range starts {
+			r := rotateRing(ring, st, rev == 1)
+			order := "ccw"
+			if ringArea2(r) < 0 {
+				order = "cw"
+			}
+			stats["order:"+order]++
+			variant := fmt.Sprintf("n%d-start%d-%s", n, st, order)
+			rings := [][][]int{r}
+			{
+				poly := make([]model2d.Coord, n)
+				for i, p := range r {
+					poly[i] = model2d.XY(float64(p[0]), float64(p[1]))
+				}
+				var res [][3]model2d.Coord
+				rec := triRec{Site: "model2d.Triangulate"}
+				rec.Outcome, rec.Panic = withDeadline(60*time.Second, func() { res = model2d.Triangulate(poly) })
+				for _, t := range res {
+					rec.Tris = append(rec.Tris, []int{vertexIndex2(rings, t[0]), vertexIndex2(rings, t[1]), vertexIndex2(rings, t[2])})
+				}
+				emit(rec, r, variant)
+			}
+			// one embedding per variant (all three over the variants of a polygon)
+			embeds := []struct {
+				name string
+				f    func(p []int) model3d.Coord3D
+			}{
+				{"z=0", func(p []int) model3d.Coord3D { return model3d.XYZ(float64(p[0]), float64(p[1]), 0) }},
+				{"x=2", func(p []int) model3d.Coord3D { return model3d.XYZ(2, float64(p[0]), float64(p[1])) }},
+				{"z=x+2y", func(p []int) model3d.Coord3D {
+					return model3d.XYZ(float64(p[0]), float64(p[1]), float64(p[0]+2*p[1]))
+				}},
+			}
+			e := embeds[(2*rev+si+caseNo)%3]
+			poly := make([]model3d.Coord3D, n)
+			for i, p := range r {
+				poly[i] = e.f(p)
+			}
+			match := func(res []*model3d.Triangle) [][]int {
+				var tris [][]int
+				for _, t := range res {
+					tri := []int{0, 0, 0}
+					for k, c := range t {
+						for i, q := range poly {
+							if q.Dist(c) < 1e-9 {
+								tri[k] = i + 1
+							}
+						}
+					}
+					tris = append(tris, tri)
+				}
+				return tris
+			}
+			{
+				var res []*model3d.Triangle
+				rec := triRec{Site: "model3d.TriangulateFace[" + e.name + "]"}
+				rec.Outcome, rec.Panic = withDeadline(60*time.Second, func() { res = model3d.TriangulateFace(poly) })
+				rec.Tris = match(res)
+				emit(rec, r, variant)
+			}
+			if si == 1 {
+				var sb strings.Builder
+				fmt.Fprintf(&sb, "OFF\n%d 1 0\n", n)
+				for _, q := range poly {
+					fmt.Fprintf(&sb, "%g %g %g\n", q.X, q.Y, q.Z)
+				}
+				fmt.Fprintf(&sb, "%d", n)
+				for i := range r {
+					fmt.Fprintf(&sb, " %d", i)
+				}
+				sb.WriteString("\n")
+				var res []*model3d.Triangle
+				var err error
+				rec := triRec{Site: "model3d.ReadOFF[" + e.name + "]"}
+				rec.Outcome, rec.Panic = withDeadline(60*time.Second, func() { res, err = model3d.ReadOFF(strings.NewReader(sb.String())) })
+				if rec.Outcome == "ok" && err != nil {
+					rec.Outcome, rec.Panic = "panic", "ReadOFF: "+err.Error()
+				}
+				rec.Tris = match(res)
+				emit(rec, r, variant)
+			}
+		}
+	}
+	// the outline as a one-ring mesh (clockwise, as TriangulateMesh documents)
+	{
+		r := ring
+		if ringArea2(r) > 0 {
+			r = rotateRing(ring, 0, true)
+		}
+		rings := [][][]int{r}
+		mesh := model2d.NewMesh()
+		for i := range r {
+			j := (i + 1) % n
+			mesh.Add(&model2d.Segment{model2d.XY(float64(r[i][0]), float64(r[i][1])), model2d.XY(float64(r[j][0]), float64(r[j][1]))})
+		}
+		var res [][3]model2d.Coord
+		rec := triRec{Site: "model2d.TriangulateMesh", Clockwise: true}
+		rec.Outcome, rec.Panic = withDeadline(60*time.Second, func() { res = model2d.TriangulateMesh(mesh) })
+		for _, t := range res {
+			rec.Tris = append(rec.Tris, []int{vertexIndex2(rings, t[0]), vertexIndex2(rings, t[1]), vertexIndex2(rings, t[2])})
+		}
+		emit(rec, r, fmt.Sprintf("n%d-ring", n))
+	}
+}
+
 // ringInside: the first vertex of a lies strictly inside ring b (crossing number)
 func ringInside(a, b [][]int) bool {
 	px, py := float64(a[0][0])+0.5, float64(a[0][1])+0.25
@@ -310,6 +573,18 @@ func init() {
 				_ = cnt
 				// as a region (one ring) through the mesh API as well
 				triRegionSites(&id, out, stats, [][][]int{ring}, "ring", n)
+			} else if mode == "placed" {
+				var c triPlacedCase
+				if err := json.Unmarshal(line, &c); err != nil {
+					fatal("bad placed region: %v", err)
+				}
+				triPlacedSites(&id, out, stats, c, n)
+			} else if mode == "bigpolygon" {
+				var ring [][]int
+				if err := json.Unmarshal(line, &ring); err != nil {
+					fatal("bad polygon: %v", err)
+				}
+				triBigPolygonSites(&id, out, stats, ring, n, a.int("seed", 0))
 			} else {
 				var rings [][][]int
 				if err := json.Unmarshal(line, &rings); err != nil {
